@@ -43,4 +43,39 @@ theorem c01_exactly_once_with_close (iss : SideId → Seq) (ops : List Op) (hok 
   obtain ⟨i, _⟩ := (h.side x).tcb t ht
   exact ⟨(i.rcv1 hns).2, (i.rcv1 hns).1⟩
 
+/-! ## non-vacuity -/
+
+def closeCheck : Bool :=
+  C01.runOkB (issOf 1000 5000) {} [.open .A 1000 1500, .listen .B 5000 1500] &&
+  match Sys.run {} [.open .A 1000 1500, .listen .B 5000 1500] with
+  | .ok (sys0, _) =>
+    match finRunB sys0 (C03.finOps ++ [.deliver .B 3, .read .B, .close .B, .emit .B, .deliver .A 7]) with
+    | some s =>
+      decide (s.a.submitted.length < 2147483648) && decide (s.b.submitted.length < 2147483648) &&
+      s.b.delivered == [1, 2, 3] && s.a.submitted == [1, 2, 3] &&
+      (match s.a.tcb, s.b.tcb with
+        | some ta, some tb => ta.state == .TimeWait && tb.state == .LastAck
+        | _, _ => false)
+    | none => false
+  | .error _ => false
+
+/-- the hypotheses of `c01_safety_with_close` on a run with closes on both sides: A writes `[1, 2, 3]` and closes,
+    its FIN overtakes the data, B reads everything, closes, and its FIN (acknowledging A's) takes A to
+    TIME-WAIT -/
+example : ∃ sys0 s : Sys, ∃ rs, C01.RunOk (issOf 1000 5000) {} [.open .A 1000 1500, .listen .B 5000 1500] ∧
+    Sys.run {} [.open .A 1000 1500, .listen .B 5000 1500] = .ok (sys0, rs) ∧ FinRun sys0 s ∧ C01.Lt31 s ∧
+    s.b.delivered = [1, 2, 3] ∧ s.a.submitted = [1, 2, 3] := by
+  have key : closeCheck = true := by decide
+  unfold closeCheck at key
+  rw [Bool.and_eq_true] at key
+  obtain ⟨k0, key⟩ := key
+  split at key
+  · rename_i sys0 rs e0
+    split at key
+    · rename_i s e1
+      simp only [Bool.and_eq_true, decide_eq_true_eq, beq_iff_eq] at key
+      exact ⟨sys0, s, rs, C01.runOkB_sound k0, e0, finRunB_sound _ _ _ e1, ⟨key.1.1.1.1, key.1.1.1.2⟩, key.1.1.2, key.1.2⟩
+    · simp at key
+  · simp at key
+
 end Elvis.Tcp
